@@ -11,6 +11,8 @@ def plans(tier):
         {"name": "2s-mixed", "msgs": [[2, 1], [1]], "plan": [W, T, R, T, W, R, T, R], "simulate": 40, "liveness": False},
         {"name": "1s-drop-only", "msgs": [[]], "plan": [T, W, R, T], "simulate": 10},
         {"name": "2s-proc", "msgs": [[1], [3]], "plan": [T, W, T, R, W, T], "procs": [2], "simulate": 25},
+        # durations with a seconds part and a fraction (1250 ms, 2100 ms): only a few schedules, they take that long
+        {"name": "timed-seconds", "msgs": [[1]], "plan": [W, W, R], "simulate": 1, "limit": 4, "expiring": [1250, 2100]},
     ]
     if tier == "quick":
         return base
